@@ -191,9 +191,22 @@ class NpShim:
         return _LINALG
 
 
+LINALG_HOOKS = {}  # name -> contract stub used instead of numpy.linalg.<name> on symbolic input
+
+
 class _Linalg:
     def __getattr__(self, name):
-        return getattr(np.linalg, name)
+        hook = LINALG_HOOKS.get(name)
+        real = getattr(np.linalg, name)
+        if hook is None:
+            return real
+
+        def dispatch(a, *args, **kw):
+            if isinstance(a, np.ndarray) and a.dtype == object and has_sym(a):
+                return hook(a, *args, **kw)
+            return real(a, *args, **kw)
+
+        return dispatch
 
 
 _LINALG = _Linalg()
